@@ -293,7 +293,7 @@ def build(s: dict, ch: Optional[dict] = None, rng: Optional[random.Random] = Non
                 c.tail = bytes(rng.randrange(256) for _ in range(rng.randint(1, 16)))
             out.append(c)
         if ch["ignorable"] and rng.random() < ch["ignorable"]:
-            out.append(ase.RawChunk(rng.choice(IGNORABLE), b""))
+            out.append(ase.RawChunk(rng.choice(IGNORABLE), bytes(rng.randrange(256) for _ in range(rng.choice([0, 3, 20])))))
         return out
 
     def cel_chunks(f: int) -> List[List[ase.Chunk]]:
